@@ -85,3 +85,26 @@ VARIANTS += [
       "or (day == 1):", "fire", "D15.1",
       "an extra condition makes the scan pass over a free day"),
 ]
+
+VARIANTS += [
+    V("space-every-odd-round-special", G,
+      "normal: bool = (r < (rounds - 1)) or ((rounds % 2) == 0)",
+      "normal: bool = (r < (rounds - 1)) and ((rounds % 2) == 0)", "fire",
+      "D15.4", "with an odd number of rounds every round toggles per pair: "
+      "pairings can be one-sided"),
+    V("space-last-round-always-special", G,
+      "normal: bool = (r < (rounds - 1)) or ((rounds % 2) == 0)",
+      "normal: bool = r < (rounds - 1)", "fire", "D15.4"),
+    V("space-orientation-ignores-round", G,
+      "order = ((r % 2) == 0) if normal else (not order)",
+      "order = ((rounds % 2) == 0) if normal else (not order)", "fire",
+      "D15.4"),
+    V("silent-space-orientation-opposite-parity", G,
+      "order = ((r % 2) == 0) if normal else (not order)",
+      "order = ((r % 2) != 0) if normal else (not order)", "silent", "",
+      "the mirrored alternation is just as balanced"),
+    V("silent-space-normal-rewritten", G,
+      "normal: bool = (r < (rounds - 1)) or ((rounds % 2) == 0)",
+      "normal: bool = ((rounds % 2) != 1) or (r + 1 < rounds)", "silent",
+      ""),
+]
